@@ -70,35 +70,26 @@ def runLoop {α} : List Nat → List (Co α) → List (Co α)
 
 /-! ## The source's sync/async twins (translated) -/
 
-/-- differences between a `*_async` method and its synchronous twin (after removing exactly the async
-    machinery) that have been reviewed as behaviour-preserving: `yield from g` written as a loop, a list
-    comprehension around the awaited iterator, the asynchronous helpers `_alist` / `_achain` /
-    `_aintersection` in place of a list / `itertools.chain` / `_intersection`, a root match yielded from an
-    inner generator, `CurrentKey.evaluate_async` delegating to `evaluate`, the `__getitem_async__` hook of
-    `getitem_async`, `Filter.resolve_async` binding the awaited test to a name first, an assertion message;
-    and the pinned sources of those helpers. Keyed by the digest the translator computes. -/
-def reviewedTwinDiffs : List (String × String) := [
-  ("selectors.py:KeysSelector.resolve", "5b8948373b56ac9a34a3199e"),
-  ("selectors.py:RecursiveDescentSelector.resolve", "4b5cda5d1b39919fa85585c4"),
-  ("selectors.py:ListSelector.resolve", "cdf7caba80b45946bfe5faaf"),
-  ("selectors.py:Filter.resolve", "45cc2cda168fb5383e2ffd60"),
-  ("selectors.py:<helper>._alist", "fd5b60662a9e9b3745d18880"),
-  ("path.py:JSONPath._resolve", "3ec7717336386acecdc87b12"),
-  ("path.py:CompoundJSONPath.findall", "0205cee901f36160ec25898a"),
-  ("path.py:CompoundJSONPath.finditer", "6ac1fdb308f76ef2345870ce"),
-  ("path.py:<helper>._intersection", "5c2aabe837d6f308531d469c"),
-  ("path.py:<helper>._aintersection", "cc80fd441adb7272e0fe0cf8"),
-  ("path.py:<helper>._achain", "dc576100719921e2d0de15e1"),
-  ("filter.py:SelfPath.evaluate", "ae9ca0b78f578dbfcb70ad94"),
-  ("filter.py:RootPath.evaluate", "e0f5da885e540fbc55bcf0fb"),
-  ("filter.py:FilterContextPath.evaluate", "9fe63bf8f0dacbef22071d32"),
-  ("filter.py:CurrentKey.evaluate", "9c8ea5f9acb006d70652973c"),
-  ("env.py:JSONPathEnvironment.getitem", "d52d014ddf95c7c9846ae579")]
+/-- the `*_async` methods that are NOT their synchronous twin with exactly the async machinery removed, and the
+    helpers of the asynchronous paths: a list comprehension around the awaited iterator, the asynchronous helpers
+    `_alist` / `_achain` / `_aintersection` in place of a list / `itertools.chain` / `_intersection`, a root match
+    yielded from an inner generator, `CurrentKey.evaluate_async` delegating to `evaluate`, the `__getitem_async__`
+    hook of `getitem_async`, `Filter.resolve_async` binding the awaited test to a name first, an assertion message.
+    For these nothing is claimed from the source text (their agreement with the synchronous twin is decided by the
+    correspondence run alone; the digest of the difference as it was read is kept by `harness/twins.py`, and a
+    changed digest widens that run). Every OTHER twin must be equal. -/
+def inherentlyDifferentTwins : List String := [
+  "selectors.py:KeysSelector.resolve", "selectors.py:RecursiveDescentSelector.resolve", "selectors.py:ListSelector.resolve",
+  "selectors.py:Filter.resolve", "selectors.py:<helper>._alist", "path.py:JSONPath._resolve", "path.py:CompoundJSONPath.findall",
+  "path.py:CompoundJSONPath.finditer", "path.py:<helper>._intersection", "path.py:<helper>._aintersection", "path.py:<helper>._achain",
+  "filter.py:SelfPath.evaluate", "filter.py:RootPath.evaluate", "filter.py:FilterContextPath.evaluate", "filter.py:CurrentKey.evaluate",
+  "env.py:JSONPathEnvironment.getitem"]
 
-/-- every twin is the synchronous method with awaits inserted, or differs in a reviewed way; and the
-    evaluation entry points all have twins -/
+/-- every twin outside that list is the synchronous method with awaits inserted (after the translator's normalisation:
+    `async` / `await` / `_async` suffixes / `__getitem_async__` removed, `for v in e: yield v` read as `yield from e`); and
+    the evaluation entry points all have twins -/
 def twinsOK (tbl : List (String × Bool × String)) : Bool :=
-  tbl.all (fun t => t.2.1 || reviewedTwinDiffs.contains (t.1, t.2.2)) &&
+  tbl.all (fun t => t.2.1 || inherentlyDifferentTwins.contains t.1) &&
   ["selectors.py:PropertySelector.resolve", "selectors.py:IndexSelector.resolve", "selectors.py:KeysSelector.resolve",
    "selectors.py:SliceSelector.resolve", "selectors.py:WildSelector.resolve", "selectors.py:RecursiveDescentSelector.resolve",
    "selectors.py:ListSelector.resolve", "selectors.py:Filter.resolve", "path.py:JSONPath.findall", "path.py:JSONPath.finditer",
